@@ -3,13 +3,29 @@
    Build mode Checked = the harness profile (overflow-checks on); a model panic prints PANIC.
    SDD half: the same program run on the Coq model of the SDD builder (C03, compression on) under
    the case's explicit vtrees (VT and, when present, SV), hashed by Model/SddSemHash.v:
-   sdd_hash_m (DDNNFPtr::semantic_hash), sdd_cached_hashes (SddPtr::cached_semantic_hash). *)
+   sdd_hash_m (DDNNFPtr::semantic_hash), sdd_cached_hashes (SddPtr::cached_semantic_hash).
+   Semantic half: the same program on the Coq model of SemanticSddBuilder (Model/SddSemBuilder.v). *)
 let primes3 = [prime_U32_TINY; prime_U32_SMALL; prime_U64_LARGEST]
 let sv = function Some x -> string_of_n x | None -> "PANIC"
 let rec drop_until tok = function [] -> [] | x :: r -> if x = tok then r else drop_until tok r
 let safe_op = function
   | OConst _ | OVar _ | ONeg _ | OAnd _ | OOr _ | OCond _ | OExists _ | OAndLst _ | OOrLst _ -> true
   | _ -> false
+
+(* the pointer hash handed to the SemanticSddBuilder model: the extracted [semb_hash p w]
+   (= shash P w of Model/SddSemBuilder.v), memoised per case on the pointer's unfolding -- the
+   model recomputes a pointer's hash at every comparison, the Rust code caches it on the node *)
+module SddTbl = Hashtbl.Make (struct
+  type t = sdd
+  let equal (a : sdd) (b : sdd) = (a = b)
+  let hash (a : sdd) = Hashtbl.hash_param 100 400 a
+end)
+let memo_hash p w =
+  let tbl = SddTbl.create 1024 in
+  fun (x : sdd) ->
+    match SddTbl.find_opt tbl x with
+    | Some h -> h
+    | None -> let h = semb_hash p w x in SddTbl.add tbl x h; h
 
 (* vtree ::= L <var> | N <vtree> <vtree> *)
 let rec parse_vtree = function
@@ -123,10 +139,20 @@ let () =
                    (match cached_hash Checked (List.nth primes3 (nxt i)) (List.nth ws (nxt i)) (tgt pl0) s with
                     | Some (h, _) -> string_of_n h | None -> "PANIC")
                  | None -> "PANIC") res));
+               (* sem= / semn=: the Coq model of SemanticSddBuilder (Model/SddSemBuilder.v) run on the
+                  same program under the case's vtree VT in the 64-bit field: the hash of every pool
+                  entry, the number of stored nodes and of get_or_insert requests *)
                Buffer.add_string buf " sem=";
-               if List.for_all safe_op ops then
-                 Buffer.add_string buf (String.concat "," (List.map (fun p -> sv (hash_m Checked prime_U64_LARGEST w2 p)) pl0))
-               else Buffer.add_char buf '-';
+               if List.for_all safe_op ops then begin
+                 let (sops, idx) = sdd_prog ops in
+                 let hf = memo_hash prime_U64_LARGEST w2 in
+                 match semb_run vt prime_U64_LARGEST hf (nat_of_int 64) sops with
+                 | None -> Buffer.add_string buf "NONE semn=NONE"
+                 | Some (mpool, (nn, nr)) ->
+                   let at i = List.nth mpool idx.(i) in
+                   Buffer.add_string buf (String.concat "," (List.mapi (fun k _ -> string_of_n (semb_hash prime_U64_LARGEST w2 (at k))) ops));
+                   Buffer.add_string buf (Printf.sprintf " semn=%d/%d" (int_of_nat nn) (int_of_nat nr))
+               end else Buffer.add_string buf "- semn=-";
                let fs = List.map (fun v -> sdd_fields v ops target ng qs ws) vts in
                let col name f = Buffer.add_string buf (" " ^ name ^ "=" ^ String.concat "|" (List.map (function Some x -> f x | None -> "NONE") fs)) in
                col "sh" (fun (a, _, _, _) -> a); col "sn" (fun (_, b, _, _) -> b);
